@@ -207,7 +207,9 @@ PROPS["C01"] = dict(
     floors={"quick": {"forced_collections": 50, "threshold_collections_that_freed_something": 10,
                       "sweeps_that_freed_something": 10, "rootkind_checked:stack": 1,
                       "rootkind_checked:root-holder": 1, "rootkind_checked:thread-local": 1, "rings": 1,
-                      "complete_graphs": 1, "chains_of_1e6": 1, "container_bursts": 10, "cases_run_in_a_worker_thread": 20, "explicit_deletions": 5,
+                      "complete_graphs": 1, "rooted_shapes": 4, "root_holders_stored_in_thread_local_storage": 10,
+                      "root_holders_referenced_by_another_root_holder": 1, "edges_to_root_holders": 10,
+                      "chains_of_1e6": 1, "container_bursts": 10, "cases_run_in_a_worker_thread": 20, "explicit_deletions": 5,
                       "boxes": 10}},
     rule="case = one heap driven through 40-200 (thorough: up to 540) random mutator operations with the "
          "reachable-set oracle after every operation; distinct = hash of the operation list; non-trivial = at least "
@@ -366,7 +368,7 @@ PROPS["C10"] = dict(
                "MurmurHash is not required - the statement asks for a function of the value.",
     quick=[("asan", 16, 150)],
     thorough=[("asan", 16, 6000), ("plain", 16, 20000)],
-    floors={"quick": {"allocation_class_groups": 500, "signed_zero_pairs": 100, "cross_kind_equal_pairs": 2000,
+    floors={"quick": {"blob_swaps_size_not_multiple_of_8": 1000, "blob_array_sorts": 1000, "allocation_class_groups": 500, "signed_zero_pairs": 100, "cross_kind_equal_pairs": 2000,
                       "sequence_history_groups": 500, "map_history_groups": 1000, "swaps": 2000,
                       "hash_data_alignment_sweeps": 500, "table_eq_reproducer_runs": 1}},
     rule="case = one group of scalar allocation classes, six equal sequences, two times three equal maps, a hash_data "
@@ -445,7 +447,8 @@ PROPS["C08"] = dict(
                       "runtime_types_with_200_or_more_instances": 5, "runtime_types_with_no_instance": 1,
                       "dispatches_to_declared_member": 500, "dispatches_to_empty_member": 500,
                       "dispatches_to_missing_class": 500, "concurrent_cold_start_trials": 200,
-                      "random_lookup_histories": 50, "oversized_type_attempts": 1, "terminal_reproducer_runs": 1}},
+                      "random_lookup_histories": 50, "oversized_type_attempts": 1, "terminal_reproducer_runs": 1,
+                      "near_name_classes_declared": 200, "undeclared_near_name_lookups": 10000}},
     rule="case = a run-time type with a random instance list and all its dispatcher calls, or a random history of "
          "200-600 lookups over all known types (cold or warm), or 10-40 concurrent cold-start trials; the built-in "
          "matrix is enumerated completely by shard 0; distinct = hash of the case description; non-trivial = every "
